@@ -71,11 +71,12 @@ func (s *source) Read(p []byte) (int, error) {
 	return n, nil
 }
 
-// sink is the underlying writer handed to lzhuf.NewWriter. mode "fail": after
-// failAt bytes in total every write returns an error (having accepted the
-// bytes before the limit); mode "short": the write that crosses failAt returns
-// a short count with a nil error (a misbehaving device), later writes likewise
-// accept nothing.
+// sink is the underlying writer handed to lzhuf.NewWriter. With a mode set,
+// the Write call that would take the total beyond failAt fails: mode "fail"
+// accepts nothing of it, mode "short" accepts the bytes up to failAt; both
+// return a non-nil error, as the io.Writer contract demands for n < len(p)
+// (a short count with a nil error makes bufio.Writer itself spin, so that is
+// not a legitimate environment). Every later Write fails too.
 type sink struct {
 	buf    []byte
 	mode   string
@@ -89,28 +90,31 @@ func (s *sink) Write(p []byte) (int, error) {
 		return len(p), nil
 	}
 	room := s.failAt - len(s.buf)
-	if room < 0 {
+	if room < 0 || s.fired {
 		room = 0
 	}
-	if len(p) <= room {
+	if len(p) <= room && !s.fired {
 		s.buf = append(s.buf, p...)
 		return len(p), nil
 	}
-	s.buf = append(s.buf, p[:room]...)
 	s.fired = true
-	if s.mode == "short" {
-		return room, nil
+	if s.mode != "short" {
+		room = 0
 	}
+	s.buf = append(s.buf, p[:room]...)
 	return room, errInjected
 }
 
+// reportFn records an oracle failure (oracle clause, stable detail, message).
+type reportFn func(oracle, detail, format string, args ...any)
+
 // guard runs f and turns a panic into a violation of prop. It returns false
 // if f panicked.
-func guard(sim *core.Sim, prop, where string, f func()) (ok bool) {
+func guard(rep reportFn, where string, f func()) (ok bool) {
 	defer func() {
 		if v := recover(); v != nil {
 			stack := string(debug.Stack())
-			sim.Violate(prop, "panic", core.PanicClass(v)+"@"+core.RepoFrame(stack), "%s panicked: %v\n%s", where, v, stack)
+			rep("panic", core.PanicClass(v)+"@"+core.RepoFrame(stack), "%s panicked: %v\n%s", where, v, stack)
 			ok = false
 		}
 	}()
